@@ -1,6 +1,6 @@
 (* C12 — clients hand every received message to the application once, in order. *)
 From Coq Require Import ZArith List Bool.
-From HP Require Import Bytes Wire ParamsOK AioSession AioFacts TwSession LegacyClient LegacyFacts BlkSession BlkFacts.
+From HP Require Import Bytes Wire ParamsOK AioSession AioFacts TwSession LegacyClient LegacyFacts LegacyStream BlkSession BlkFacts.
 Import ListNotations.
 
 (* asyncio: in every reachable state  (handed to read()/__anext__) ++ (waiting in read_queue) = every OP_PUBLISH
@@ -25,6 +25,16 @@ Theorem C12_legacy_recv : forall s d rest,
   (snd (cbs fs) = false -> e = None -> next limitP (lbuf s') = NeedMore).
 Proof. exact recv_hands_over_everything. Qed.
 
+(* blocking Client.run over a whole connection, every socket script: unless an undecodable body made run() raise, the
+   callbacks made on the current connection are those of F and the bytes received on it decode to the handshake frame
+   F0, then F, then what the buffer still holds: every message once, in order, none invented, none skipped *)
+Theorem C12_legacy_stream : forall conn recv send subs stop_after fuel,
+  let s := lrun fuel (linit conn recv send subs stop_after) in
+  In LCrash (ltrace s) \/
+  exists F0 F, (length F0 <= 1)%nat /\ snd (cbs F) = false /\ conn_cbs (ltrace s) = rev (fst (cbs F)) /\
+    parse limitP (lrx s) = let '(fs, r, e) := parse limitP (lbuf s) in (F0 ++ F ++ fs, r, e).
+Proof. exact legacy_stream. Qed.
+
 (* blocking thread session: what read() returned ++ what waits in read_queue = every OP_PUBLISH decoded, in order *)
 Theorem C12_blocking_session : forall ident secret es, Qb (brun ident secret es).
 Proof. exact brun_Qb. Qed.
@@ -33,3 +43,4 @@ Print Assumptions C12_asyncio.
 Print Assumptions C12_blocking_session.
 Print Assumptions C12_twisted.
 Print Assumptions C12_legacy_recv.
+Print Assumptions C12_legacy_stream.
